@@ -120,3 +120,122 @@ def lex_suite(ctx, n, extra_texts=()):
             text=t, impl=want[first:first + 2], model=(got or [])[first:first + 2]))[:1500]))
     ctx.say('lexer correspondence: %d texts, %d mismatches' % (len(texts), len(bad)))
     return bad
+
+
+# ---------------------------------------------------------------------------------------- parser
+def dump_parse(prog):
+    """untyped parse tree in the format of Hid/ParseRender.lean"""
+    from hidc import ast
+    from hidc.ast import ArrayType
+    from hidc.lexer.tokens import Flavor
+
+    def name(n): return 'n' + '.'.join(str(ord(c)) for c in n)
+    def fl(f): return {Flavor.NONE: '-', Flavor.YOU: '@', Flavor.DEFEAT: '!'}[f]
+    def ty(t): return '(arr %s %d)' % (ty(t.el_type), 1 if t.const else 0) if isinstance(t, ArrayType) else str(t)
+
+    def ex(e):
+        t = type(e)
+        if t is ast.ByteValue: return '(char %d)' % e.data
+        if t is ast.IntValue: return '(int %d)' % e.data
+        if t is ast.StringValue: return '(str x%s)' % e.data.hex()
+        if t is ast.BoolValue: return '(bool %d)' % (1 if e.data else 0)
+        if t is ast.ArrayLiteral: return '(arrlit%s)' % ''.join(' ' + ex(v) for v in e.values)
+        if t is ast.FuncCall: return '(call %s %s%s)' % (fl(e.func.flavor), name(e.func.base_name), ''.join(' ' + ex(a) for a in e.args))
+        if t is ast.VariableLookup: return '(var %s)' % name(e.var.name)
+        if t is ast.LengthLookup: return '(len %s)' % ex(e.source)
+        if t is ast.ArrayLookup: return '(index %s %s)' % (ex(e.source), ex(e.index))
+        if t is ast.Is: return '(is %s %s)' % (ex(e.expr), ty(e.type))
+        if t is ast.Speculation: return '(spec %s %s)' % (ex(e.left), ex(e.right))
+        if isinstance(e, ast.Unary): return '(un %s %s)' % (t.__name__, ex(e.arg))
+        if isinstance(e, ast.Binary): return '(bin %s %s %s)' % (t.__name__, ex(e.left), ex(e.right))
+        raise ValueError('dump_parse: %r' % (e,))
+
+    def st(s):
+        if isinstance(s, ast.Expression) and not isinstance(s, ast.ArrayInitializer): return '(expr %s)' % ex(s)
+        t = type(s)
+        if t is ast.Declaration:
+            if isinstance(s.init, ast.ArrayInitializer):
+                return '(vla %s %s %d %s)' % (name(s.var.name), ty(s.var.type.el_type), 1 if s.var.type.const else 0, ex(s.init.length))
+            return '(decl %s %s %d %s)' % (name(s.var.name), ty(s.var.type), 1 if s.var.const else 0, ex(s.init))
+        if t is ast.IncAssignment: return '(incassign %s %s %s)' % (ex(s.lookup), ex(s.expr), s.bin_op.__name__)
+        if t is ast.Assignment: return '(assign %s %s)' % (ex(s.lookup), ex(s.expr))
+        if t is ast.ReturnStatement: return '(ret)' if s.value is None else '(ret %s)' % ex(s.value)
+        if t is ast.BreakStatement: return '(break)'
+        if t is ast.ContinueStatement: return '(continue)'
+        if t is ast.CodeBlock: return '(block %d%s)' % (1 if s.preemptive else 0, ''.join(' ' + st(x) for x in s.stmts))
+        if t is ast.IfBlock: return '(if %s %s %s)' % (ex(s.cond), st(s.body), st(s.else_block))
+        if t is ast.LoopBlock: return '(loop %s %s %s)' % (ex(s.cond), st(s.body), st(s.cont))
+        if t is ast.TryBlock: return '(try %s %s %s)' % (st(s.body), 'stop' if isinstance(s.handler, ast.StopBlock) else 'undo', st(s.handler.body))
+        if t is ast.PreemptBlock: return '(preempt %s)' % st(s.body)
+        raise ValueError('dump_parse: %r' % (s,))
+
+    vs = ' '.join(st(d) for d in prog.var_decls)
+    fs = ' '.join('(f %s %s %s (%s) %s)' % (ty(f.ret_type), fl(f.name.flavor), name(f.name.base_name),
+                                          ' '.join('(%s %s %d)' % (name(p.var.name), ty(p.var.type), 1 if p.var.const else 0) for p in f.params),
+                                          st(f.body)) for f in prog.func_decls)
+    return '(prog (%s) (%s))' % (vs, fs)
+
+
+def py_parse(text):
+    from hidc.lexer import SourceCode
+    from hidc.parser import parse
+    from hidc.errors import LexerError, ParserError
+    try:
+        return 'ok ' + dump_parse(parse(SourceCode.from_string(text)))
+    except (LexerError, ParserError) as e:
+        c = e.context[-1].start
+        return '%s %d:%d' % (type(e).__name__, c.line, c.col)
+
+
+def model_run(cmd, texts):
+    with tempfile.NamedTemporaryFile('w', suffix='.txt', delete=False, encoding='ascii') as f:
+        for k, t in texts.items():
+            f.write('#case %s\n' % k)
+            for line in t.split('\n'):
+                f.write(' '.join(str(ord(c)) for c in line) + '\n')
+        f.write('#end\n')
+        name = f.name
+    p = subprocess.run([hidlib.HIDMODEL, cmd, name], capture_output=True, text=True, timeout=900)
+    os.unlink(name)
+    out, cur = {}, None
+    for l in p.stdout.split('\n'):
+        if l.startswith('#case '):
+            cur = l[6:]; out[cur] = []
+        elif cur is not None and l: out[cur].append(l)
+    return {k: '\n'.join(v) for k, v in out.items()}
+
+
+def mutate_text(rng, text):
+    """token-level mutations of a valid program: delete / duplicate / swap / replace a lexeme"""
+    toks = [l.split(' ')[0] for l in py_lex(text) if not l.startswith('#')]
+    if not toks: return text
+    lines = text.split('\n')
+    i = rng.randrange(len(toks))
+    (l0, c0), (l1, c1) = [tuple(map(int, x.split(':'))) for x in toks[i].split('-')]
+    lex = lines[l0][c0:c1]
+    k = rng.random()
+    if k < 0.3: rep = ''
+    elif k < 0.45: rep = lex + ' ' + lex
+    elif k < 0.9: rep = rng.choice(PIECES + ['x', '1', '"s"', "'c'", '@f', '!g', 'try', 'preempt', '??', 'break', '{', '}', '(', ')', ';', 'empty', '[', ']'])
+    else: rep = gen_lexeme(rng)
+    lines[l0] = lines[l0][:c0] + rep + lines[l0][c1:]
+    return '\n'.join(lines)
+
+
+def parse_suite(ctx, texts):
+    model = model_run('parse', texts)
+    bad = []
+    kinds = {}
+    for k, t in texts.items():
+        want = py_parse(t)
+        got = model.get(k)
+        kk = want.split(' ')[0]
+        kinds[kk] = kinds.get(kk, 0) + 1
+        if want != got: bad.append((k, t, want, got))
+    ctx.stats['parse_correspondence'] = dict(texts=len(texts), mismatches=len(bad), outcomes=kinds)
+    if bad:
+        k, t, want, got = bad[0]
+        ctx.breaks.append(dict(kind='correspondence', name='parse: Hid/Parser.lean vs hidc.parser', detail=repr(dict(
+            text=t[:600], impl=want[:300], model=(got or '')[:300]))[:1800]))
+    ctx.say('parser correspondence: %d texts, %d mismatches %s' % (len(texts), len(bad), kinds))
+    return bad
